@@ -227,6 +227,8 @@ func cmdRun(args []string) {
 			tot.Unexpanded += s.Unexpanded
 			tot.Transitions += s.Transitions
 			tot.PoisonRuns += s.PoisonRuns
+			tot.WarmRuns += s.WarmRuns
+			tot.DrainSteps += s.DrainSteps
 			tot.Evaluations += s.Evaluations
 			tot.Nontrivial += s.Nontrivial
 			tot.FaultySkipped += s.FaultySkipped
@@ -285,7 +287,9 @@ func cmdRun(args []string) {
 		"raw_variants_seen_not_expanded":         tot.Unexpanded,
 		"transitions":                            tot.Transitions,
 		"poison_differential_runs":               tot.PoisonRuns,
-		"traces_validated_against_impl":          tot.Transitions + tot.PoisonRuns,
+		"warmed_history_runs":                    tot.WarmRuns,
+		"drain_epilogue_steps":                   tot.DrainSteps,
+		"traces_validated_against_impl":          tot.Transitions + tot.PoisonRuns + tot.WarmRuns + tot.DrainSteps,
 		"evaluations":                            tot.Evaluations,
 		"distinct_nontrivial":                    tot.Nontrivial,
 		"rule":                                   info.Rule,
@@ -321,7 +325,7 @@ func cmdRun(args []string) {
 		"known":       len(seenKnown),
 	}
 	if info.Level != "model_checking" {
-		for _, k := range []string{"states", "transitions", "traces_validated_against_impl", "distinct_dedup_states", "raw_variants_expanded", "raw_variants_seen_not_expanded", "poison_differential_runs", "state_key", "max_depth", "faulty_transitions_skipped", "known_finding_transitions_not_expanded"} {
+		for _, k := range []string{"states", "transitions", "traces_validated_against_impl", "distinct_dedup_states", "raw_variants_expanded", "raw_variants_seen_not_expanded", "poison_differential_runs", "warmed_history_runs", "drain_epilogue_steps", "state_key", "max_depth", "faulty_transitions_skipped", "known_finding_transitions_not_expanded"} {
 			delete(cov, k)
 		}
 	}
